@@ -47,7 +47,7 @@ WEIGHT_VALUES = [0.5, 1.0, 1.5, 2.0, 3.0, 0.25]
 PACK = 25
 
 
-def gen_cases(tier, seed):
+def _gen_cases_main(tier, seed):
     # ---- exhaustive datasets, packed -----------------------------------------------------------------------------
     if tier == "quick":
         streams = [D.all_datasets(3, 2)]
@@ -344,7 +344,7 @@ def _check_kernel(case, fails):
     return evals, nk
 
 
-def check_case(case):
+def _check_case_main(case):
     from bounded import adapt as A
     fails = []
     if case["kind"] == "kernel":
@@ -410,3 +410,16 @@ def _dedupe(fails):
             seen.add(k)
             out.append(f)
     return out
+
+
+def gen_cases(tier, seed):
+    from bounded import history
+    yield from _gen_cases_main(tier, seed)
+    yield from history.history_cases(ID, tier, seed)
+
+
+def check_case(case):
+    if case.get("kind") == "history":
+        from bounded import history
+        return history.check_history(case)
+    return _check_case_main(case)
